@@ -15,7 +15,8 @@ class C01Facade(Harness):
     prop = "C01"
     group = "h1"
     bounds_doc = "N data values (NaN-able reals), M bins (edges | pairs | StaticBinning), weights none/int/real, dtype, keep_missed"
-    assumptions_doc = ("C01 dtype=float32 instances: weights are integers <= 2000 or multiples of 0.25 <= 500, so that squares and sums are exact in binary32 (binary32 rounding is not modelled)",)
+    assumptions_doc = ("C01 dtype=float32 instances: weights are integers <= 2000 or multiples of 0.25 <= 500, so that squares and sums are exact in binary32 (binary32 rounding is not modelled)",
+                       "C01 16/32-bit integer dtype instances: integer weights <= 100 / <= 2000, so that sums of squares stay inside the type (wrap-around of narrow integers is not the property's subject)")
 
     def instances(self, tier):
         if tier == "quick":
@@ -43,6 +44,12 @@ class C01Facade(Harness):
         for (n, m), spec, wk, keep, dt in combos:
             yield (f"h1-N{n}-M{m}-{spec}-w{wk}-k{int(keep)}-d{dt}",
                    dict(N=n, M=m, spec=spec, weights=wk, keep_missed=keep, dtype=dt, nan=(n <= 2)))
+        # dropna=False with explicit bins: data containing a NaN are refused (never counted as overflow); unsigned dtypes are integer dtypes too
+        for spec, wk in (("edges", "int"), ("pairs", "real")):   # (gapped pairs with integer contents: see the known finding C01-gapped-int-dtype)
+            yield (f"h1-N2-M2-{spec}-w{wk}-dropna0", dict(N=2, M=2, spec=spec, weights=wk, keep_missed=True, dtype=None, nan=True, dropna=False))
+        yield ("h1-N1-M1-fwb-wreal-dropna0", dict(N=1, M=1, spec="fwb", weights="real", keep_missed=True, dtype=None, nan=True, dropna=False, width=1.0))
+        for dt, wk in (("uint16", "real"), ("uint32", "int"), ("uint64", "real"), ("int16", "real")):
+            yield (f"h1-N2-M2-edges-w{wk}-k1-d{dt}", dict(N=2, M=2, spec="edges", weights=wk, keep_missed=True, dtype=dt, nan=False))
         # multi-dimensional data in non-C memory layouts (transposed / strided / reversed views) with element-wise weights
         for layout in ("transposed", "strided", "reversed"):
             for dropna in (True, False):
@@ -55,8 +62,9 @@ class C01Facade(Harness):
             return self._declare_layout(cx, p)
         x = {"v": cx.reals("v", N, nan=p["nan"])}
         f32 = p["dtype"] == "float32"  # binary32 rounding is not modelled: weights whose squares and sums are exact in binary32
+        narrow = {"float32": 2000, "uint32": 2000, "int32": 2000, "uint16": 100, "int16": 100}.get(p["dtype"])   # sums of squares stay inside the type
         if p["weights"] == "int":
-            x["w"] = cx.ints("w", N, lo=0, hi=(2000 if f32 else None))
+            x["w"] = cx.ints("w", N, lo=0, hi=narrow)
         elif p["weights"] == "real" and f32:
             x["w"] = [k * 0.25 for k in cx.ints("wq", N, lo=0, hi=2000)]
         elif p["weights"] == "real":
@@ -142,6 +150,8 @@ class C01Facade(Harness):
             kw["weights"] = x["w"]
         if p["dtype"]:
             kw["dtype"] = p["dtype"]
+        if p.get("dropna") is False:
+            kw["dropna"] = False
         h = E.attempt(h1, list(x["v"]), bins, keep_missed=p["keep_missed"], **kw)
         if isinstance(h, Raised):
             return {"raised": h}
@@ -182,8 +192,14 @@ class C01Facade(Harness):
         else:
             L, R = [cx.t(i) for i in x["l"]], [cx.t(i) for i in x["r"]]
         cons = consecutive(L, R)
-        int_dtype_float_w = p["dtype"] in ("int64", "int32", "int16") and p["weights"] == "real"
+        int_dtype_float_w = p["dtype"] in ("int64", "int32", "int16", "uint16", "uint32", "uint64") and p["weights"] == "real"
         raised = obs.get("raised")
+        if p.get("dropna") is False and not p.get("layout"):
+            any_nan = z3.Or(nan + [z3.BoolVal(False)])
+            if raised is not None:
+                yield "refusal_only_for_nan", z3.And(any_nan, z3.BoolVal(raised.name == "ValueError"))
+                return
+            yield "nan_refused_without_dropna", z3.Not(any_nan)
         if int_dtype_float_w:
             yield "int_dtype_float_weights_refused", isinstance(raised, Raised) and raised.name == "ValueError"
             return
